@@ -55,7 +55,26 @@ Fixpoint steps_ok (st : store) (prev : snap) (obs : list oobs) (snaps : list sna
   | _, _ => false
   end.
 
-Inductive c03case := C03 (ops : list wop) (obs : list oobs) (snaps : list snap) (final : store) (tip : option id).
+Inductive c03case :=
+| C03 (ops : list wop) (obs : list oobs) (snaps : list snap) (final : store) (tip : option id)
+  (* an API built on the recording operations (automatic skipping of rewritten entries): the log
+     before and after it, observed by the independent walker *)
+| C03Api (before : store) (tip0 : option id) (after : store) (tip1 : option id) (err : bool).
+
+(** the chain of [after] ends with the chain of [before]: append-only *)
+Definition extends_chain (before : store) (tip0 : option id) (after : store) (tip1 : option id) : bool :=
+  match chain_ids before (S (List.length before)) tip0, chain_ids after (S (List.length after)) tip1 with
+  | Some l0, Some l1 =>
+      let k := List.length l1 - List.length l0 in
+      Nat.leb (List.length l0) (List.length l1)
+      && (fix eqb (a b : list ent) : bool :=
+            match a, b with
+            | [], [] => true
+            | x :: a', y :: b' => N.eqb (fst x) (fst y) && eqb a' b'
+            | _, _ => false
+            end) (skipn k l1) l0
+  | _, _ => false
+  end.
 
 Definition c03_check (c : c03case) : verdict :=
   match c with
@@ -69,6 +88,12 @@ Definition c03_check (c : c03case) : verdict :=
         then VMismatch 1
         else if negb (store_eqb (ls_store s) final && opt_id_eqb (ls_tip s) tip) then VMismatch 2
         else VOk
+  | C03Api before tip0 after tip1 err =>
+      if negb (log_ok before tip0) then VMismatch 8
+      else if negb (log_ok after tip1) then VSpec 1                     (* single chain, numbering *)
+      else if negb (extends_chain before tip0 after tip1) then VSpec 3   (* append-only *)
+      else if err && negb (opt_id_eqb tip0 tip1) then VSpec 2            (* a failed operation appends nothing *)
+      else VOk
   end.
 
 (** ** C17 *)
